@@ -40,7 +40,7 @@ func genC18(r *Rand, sc *Scenario, tier string) {
 			sc.Docs = append(sc.Docs, docOf(genContainerDoc(r, r.Chance(1, 2), memberCount(r), 500), "container"))
 		}
 	}
-	if r.Chance(1, 12) {
+	if r.Chance(1, 60) {
 		// every task recurses deep through the public traversal functions at the same time
 		sc.Docs = nil
 		ntasks = r.Range(4, 6)
@@ -177,7 +177,7 @@ func (c18b) Budget(tier string) (int, int) {
 	if tier == "thorough" {
 		return 400000, 420
 	}
-	return 6000, 20
+	return 3200, 120
 }
 func (c18b) Rule() string {
 	return "stage B (NOT schedule-deterministic, labelled so): the same scenarios as stage A, uninstrumented, built with -race; the 2-6 tasks of a scenario are real goroutines released together on 16 Ps and repeat their operation lists 12 times on shared read-only documents with private Buffer/ValueReader/destinations; real sync.Pool (seam off). A race-detector report (GORACE=halt_on_error=1) or a result that differs from the sequential execution is a violation."
